@@ -581,6 +581,11 @@ def check_C04(chk):
                 continue
             bit = r.randint(0, 8 * s['mlen'] - 1) if s['tam'] == 1 else 8 * s['mlen'] + r.randint(0, 63)
             g.append(dec_line(f"z{mode}{i}", mode, s, d, flip(c, bit), pf=r.choice([0, 255, 165, 1])))
+            # the same rejected packet with the caller's buffers touching each other (see tjdrive.c: lay=, adj=)
+            if i % 2 == 0:
+                g.append(dec_line(f"z{mode}{i}lay", mode, s, d, flip(c, bit), pf=r.choice([255, 165, 1])) + f" lay={(i // 2) % 4 + 1}")
+            if i % 3 == 0 and not s.get('alias'):
+                g.append(dec_line(f"z{mode}{i}adj", mode, s, d, flip(c, bit), pf=r.choice([255, 165, 1])) + f" adj={(i // 3) % 2 + 1}")
         groups2.extend(chunks(g, 16))
     execs2, _ = run_groups(chk, exe, groups2)
     judge(chk, exe, execs2, lambda xi: [f"reset id=x{xi}"] + groups2[xi])
